@@ -238,6 +238,11 @@ theorem C05_old_population_untouched (c : Cfg) (hv : c.valid) (rank : List Nat) 
 theorem C05_ranking_exists (w : Nat) (pop : List Agent) :
     IsRanking (keys w pop) (stableRank (keys w pop)) := stableRank_isRanking _
 
+/-- The executable test `isRankingB` (the driver's `ranking` op, which the harness feeds with the
+    rank array numpy really returned) decides exactly the specification `IsRanking`. -/
+theorem C05_ranking_test_sound (ks : List Key) (rank : List Nat) :
+    isRankingB ks rank = true ↔ IsRanking ks rank := isRankingB_iff ks rank
+
 /-! ### non-vacuity: a concrete 4-agent population with a three-way tie at the top -/
 
 def exPop : List Agent :=
